@@ -314,6 +314,34 @@ pub fn sloppy_raw(rng: &mut Rng, input: &[u8], sloppiness: u64) -> Vec<u8> {
     encode_fixed(input, &toks, block_len)
 }
 
+/// References at the very edge of the window, written by hand (no compressor goes there): a
+/// marker occurs three times in literals over a 64-letter alphabet; the third occurrence is a
+/// reference to the first one, at distance exactly `w` (or w - 1), with the second occurrence as
+/// a nearer candidate of the same length (the distance then has to be stored as a hop count and
+/// found again on the way back) or without it.
+pub fn window_edge_streams(rng: &mut Rng) -> Vec<(String, Vec<u8>)> {
+    let mut v = Vec::new();
+    for w in [32768usize, 32767, 512, 511] {
+        for nearer in [true, false] {
+            let mlen = 12usize;
+            let a = 100 + rng.below(50) as usize;
+            let c = a + w;
+            let mut text: Vec<u8> = (0..c + mlen + 40).map(|_| b'0' + rng.below(64) as u8).collect();
+            let marker: Vec<u8> = (0..mlen).map(|i| b'A' + ((i * 7 + w) % 26) as u8 + if i % 2 == 0 { 32 } else { 0 }).collect();
+            text[a..a + mlen].copy_from_slice(&marker);
+            if nearer { let b = c - 200; text[b..b + mlen].copy_from_slice(&marker); }
+            text[c..c + mlen].copy_from_slice(&marker);
+            text[a - 1] = b'#'; text[c - 1] = b'%'; text[a + mlen] = b'!'; text[c + mlen] = b'?';
+            let mut toks: Vec<(usize, usize)> = (0..c).map(|_| (1, 0)).collect();
+            toks.push((mlen, w));
+            toks.extend((0..text.len() - c - mlen).map(|_| (1usize, 0usize)));
+            let block = if rng.chance(1, 2) { usize::MAX } else { 20000 };
+            v.push((format!("window-edge/d{}/{}", w, if nearer { "second-candidate" } else { "only-candidate" }), encode_fixed(&text, &toks, block)));
+        }
+    }
+    v
+}
+
 /// writes a given LZ77 parse ((length, distance), distance 0 for a literal) of `input` with the
 /// fixed Huffman code, `block_len` tokens per block
 pub fn encode_fixed(input: &[u8], toks: &[(usize, usize)], block_len: usize) -> Vec<u8> {
